@@ -16,7 +16,7 @@ LEVEL = "model_checking"
 RULE = ("BFS over canonical states = ordered tuple of members' signed costs; transitions = add(x) for every symbol x of the "
         "alphabet (V3^2 x {F,T}: 18 symbols; {0,1}^3 x {T}: 8 symbols; thorough adds {0..3}^2, {0,1}^3 x {F,T}, V3^3) on a real Archive rebuilt from the state, for the Pareto "
         "comparator and two epsilon comparators, until no new state appears. Oracle on every transition: content == nd(state "
-        "+ x), flag == inserted, one representative per cost vector, evicted/rejected dominated-or-equal. Then every history "
+        "+ x), flag == inserted, one representative per cost vector, evicted/rejected dominated-or-equal. Two independent archives fed alternately (no shared state); offered individuals are not modified. Then every history "
         "of length <=3/4 from an empty archive, and truncate over all feature assignments and sizes on every reachable state.")
 ASSUMPTIONS = ["archive behaviour depends on members only through their signed costs and order (Archive has no other state)",
                "markers as artap writes them; epsilons positive; alphabet differences exceed rounding error"]
@@ -115,6 +115,32 @@ def check_history(cname, seq):
     return out
 
 
+def check_two_archives(cname1, cname2, seq1, seq2):
+    """Two independent archives fed alternately: each must hold nd of what IT was offered; offered individuals are not modified."""
+    out = []
+    a1, a2 = make_archive(cname1), make_archive(cname2)
+    off1, off2 = [], []
+    try:
+        for k in range(max(len(seq1), len(seq2))):
+            for ar, seq, off in ((a1, seq1, off1), (a2, seq2, off2)):
+                if k < len(seq):
+                    x = ind(seq[k])
+                    before = list(x.costs_signed)
+                    ar.add(x)
+                    off.append(x)
+                    if list(x.costs_signed) != before:
+                        out.append(("C04:add:modifies-the-offered-individual", "add changed costs_signed %r -> %r" % (before, x.costs_signed)))
+    except Exception as e:
+        return [("C04:add:exception:%s" % type(e).__name__, "two archives %s/%s on %r / %r raised %r" % (cname1, cname2, seq1, seq2, e))]
+    for ar, seq, name in ((a1, seq1, cname1), (a2, seq2, cname2)):
+        got = content(ar)
+        if set(got) != nondominated(seq) or len(set(got)) != len(got):
+            out.append(("C04:two-archives:content:%s" % name,
+                        "archives %s/%s fed alternately with %r / %r: the %s archive holds %r, expected %r" % (
+                            cname1, cname2, seq1, seq2, name, got, sorted(nondominated(seq)))))
+    return out
+
+
 def check_truncate(cname, state, feats, size, larger=True):
     out = []
     try:
@@ -203,6 +229,18 @@ def _shard(shard, col: Collector):
                         for key, msg in check_truncate(cname, st, feats, size, larger):
                             col.violation(key, "truncate", msg, {"comparator": cname, "state": st, "feats": feats,
                                                                  "size": size, "larger": larger})
+    elif kind == "two":
+        _, c1, c2, aname, first = shard
+        alpha = ALPHA[aname]
+        for rest in itertools.product(alpha[::2], repeat=2):
+            seq1 = [first] + list(rest)
+            for seq2 in ([alpha[0], alpha[-1], alpha[1]], [alpha[-1], alpha[-2], alpha[0]], list(reversed(seq1))):
+                col.case()
+                col.count("two_archive_cases")
+                col.nontrivial(("two", c1, c2, tuple(seq1), tuple(seq2)))
+                for key, msg in check_two_archives(c1, c2, seq1, seq2):
+                    col.violation(key, "two", msg, {"c1": c1, "c2": c2, "seq1": seq1, "seq2": seq2})
+        col.sample({"kind": "two archives fed alternately", "comparators": [c1, c2], "seq1": [first, alpha[2], alpha[4]]}, 1)
     elif kind == "hist":
         _, cname, aname, n, first = shard
         alpha = ALPHA[aname]
@@ -222,6 +260,8 @@ def replay(sub, case):
     inf = lambda v: math.inf if v == "inf" else v
     if sub == "add":
         return check_add(case["comparator"], tuple(t(s) for s in case["state"]), t(case["x"]))[0]
+    if sub == "two":
+        return check_two_archives(case["c1"], case["c2"], [t(x) for x in case["seq1"]], [t(x) for x in case["seq2"]])
     if sub == "hist":
         return check_history(case["comparator"], [t(s) for s in case["seq"]])
     if sub == "truncate":
@@ -240,6 +280,10 @@ def run(tier, seed):
             for first in ALPHA[aname]:
                 for k in range(2, n + 1):
                     shards.append(("hist", cname, aname, k, first))
+    for c1, c2 in (("pareto", "pareto"), ("pareto", "eps01"), ("eps01", "eps05"), ("eps05", "pareto")):
+        for aname in ("V3x2F", "B3"):
+            for first in ALPHA[aname][::3]:
+                shards.append(("two", c1, c2, aname, first))
     col = run_shards(_shard, shards)
     extra = {"exhaustive": col.counters.get("caps_hit", 0) == 0, "fixed_point": not col.full and col.counters.get("caps_hit", 0) == 0,
              "states": col.counters.get("states", 0), "transitions": col.counters.get("transitions", 0),
